@@ -132,6 +132,13 @@ pub fn mutants(seed: &[u8], m: &Value) -> Vec<Vec<u8>> {
     match op {
         "identity" => vec![seed.to_vec()],
         "eol" => vec![eol(seed)],
+        // structure-level repetition: the seed n times over (many parts / lines / elements), and the leading quarter,
+        // half or three quarters of it n times followed by the whole seed (class digit9 / letter / e selects the cut)
+        "repeat_seed" => vec![seed.repeat(at), [seed.repeat(at), seed[..seed.len() / 2].to_vec()].concat()],
+        "repeat_head" => {
+            let cut = match b { b'9' => seed.len() / 4, b'e' => seed.len() * 3 / 4, _ => seed.len() / 2 };
+            vec![[seed[..cut].repeat(at), seed.to_vec()].concat()]
+        }
         "eol_truncate" => {
             let d = eol(seed);
             (0..=d.len()).map(|p| d[..p].to_vec()).collect()
